@@ -29,8 +29,10 @@ entry = [e for e in kf["open"] if e["id"] == a.id][0]
 keys, other = set(), set()
 for tier in a.tiers.split(","):
     with tempfile.NamedTemporaryFile(suffix=".json") as tf:
-        subprocess.run(["/venv/bin/python", f"{V}/mc/run.py", a.prop, "--tier", tier, "--dump-fail-keys", tf.name],
-                       stdout=subprocess.DEVNULL, cwd=V)
+        with tempfile.TemporaryDirectory() as ed:   # do not touch the committed evidence / replays
+            subprocess.run(["/venv/bin/python", f"{V}/mc/run.py", a.prop, "--tier", tier, "--dump-fail-keys", tf.name],
+                           stdout=subprocess.DEVNULL, cwd=V,
+                           env=dict(os.environ, VERIF_EVIDENCE_DIR=ed, VERIF_REPLAY_DIR=os.path.join(ed, "replays")))
         for k, clause, fam in json.load(open(tf.name)):
             if (not fams or any(fam.startswith(f) for f in fams)) and (not clauses or clause in clauses):
                 keys.add(k)
